@@ -40,6 +40,7 @@ type Config struct {
 	FineAll       bool  // every thread runs in fine mode (statement points are scheduling points)
 	MaxSteps      int   // horizon on scheduling steps (0 = 2,000,000)
 	DataExplore   bool  // data choices (vrand etc.) are logged as choice points (else always 0)
+	DataCost      bool  // data choices count as environment deviations (kind 'e') instead of being free
 	ShuffleDepth  int   // vrand.Shuffle: only the first k positions are chosen (0 = all)
 }
 
@@ -119,6 +120,8 @@ type World struct {
 	recRand  bool
 	repRand  []int
 	repPos   int
+	repArity []int
+	repTaken []int
 	// hooks for harness observation
 	OnTimerFire func(label string, now int64)
 }
@@ -519,18 +522,22 @@ func Choose(n int, label string) int {
 		return 0
 	}
 	if w.repRand != nil {
-		if w.repPos < len(w.repRand) {
-			c := w.repRand[w.repPos]
-			w.repPos++
-			if c < n {
-				return c
-			}
+		c := 0
+		if w.repPos < len(w.repRand) && w.repRand[w.repPos] < n {
+			c = w.repRand[w.repPos]
 		}
-		return 0
+		w.repPos++
+		w.repArity = append(w.repArity, n)
+		w.repTaken = append(w.repTaken, c)
+		return c
 	}
 	c := 0
 	if w.cfg.DataExplore {
-		c = w.choose(n, 'd', false, func() string { return label })
+		kind := byte('d')
+		if w.cfg.DataCost {
+			kind = 'e'
+		}
+		c = w.choose(n, kind, false, func() string { return label })
 	}
 	if w.recRand {
 		w.rrand = append(w.rrand, c)
@@ -703,6 +710,34 @@ func (e *Env) ReplayRand(r []int) {
 	e.w.repRand = append([]int{}, r...)
 	e.w.repPos = 0
 	e.w.recRand = false
+}
+
+// ForAllRand calls f once for every sequence of code-under-test data choices it can make (depth-first
+// enumeration by replay: f must be a deterministic function of the draws). Returns the number of runs.
+func (e *Env) ForAllRand(f func(draws []int)) int {
+	n := 0
+	var rec func(prefix []int)
+	rec = func(prefix []int) {
+		e.w.repRand = append([]int{}, prefix...)
+		e.w.repPos = 0
+		e.w.repArity, e.w.repTaken = nil, nil
+		if e.w.repRand == nil {
+			e.w.repRand = []int{}
+		}
+		f(prefix)
+		n++
+		ar := append([]int{}, e.w.repArity...)
+		tk := append([]int{}, e.w.repTaken...)
+		for i := len(prefix); i < len(ar); i++ {
+			for alt := 1; alt < ar[i]; alt++ {
+				np := append(append([]int{}, tk[:i]...), alt)
+				rec(np)
+			}
+		}
+	}
+	rec(nil)
+	e.w.repRand = nil
+	return n
 }
 
 // StopReplayRand returns to explored data choices.
